@@ -210,7 +210,10 @@ def cbmc_cmd(o, gb, backend, extra=()):
     cmd = ["cbmc", gb, "--drop-unused-functions"] + ([] if o.no_slice else ["--slice-formula"])
     cmd += (o.checks if o.checks is not None else DEFAULT_CHECKS)
     if o.unwind:
-        cmd += ["--unwind", str(o.unwind), "--unwinding-assertions"]
+        u = o.unwind
+        if u == "auto":   # all remaining loops are DFCC library loops over assigns targets
+            u = (o.get("_max_targets") or 4) + 3
+        cmd += ["--unwind", str(u), "--unwinding-assertions"]
     if o.unwindset:
         cmd += ["--unwindset", ",".join(o.unwindset)]
         if not o.unwind:
@@ -288,11 +291,18 @@ def run_obligation(o, repo, scratch, keep=False):
             rec.update(status="UNDECIDED", why=gb)
             return rec
         best = None
+        o["_max_targets"] = info.get("max_assigns_targets")
         backs = o.backends or ["minisat"]
         # portfolio: run sequentially if one back end, else in parallel threads
         def one(bk):
             cmd = cbmc_cmd(o, gb, bk)
             rc, out, wall = run(cmd, o.timeout or 600, o.mem_gb or 12, work)
+            for bits in (10, 12):
+                if "too many addressed objects" in out and (o.object_bits or 8) < bits:
+                    o["object_bits"] = bits
+                    cmd = cbmc_cmd(o, gb, bk)
+                    rc, out, w2 = run(cmd, o.timeout or 600, o.mem_gb or 12, work)
+                    wall += w2
             st, d = classify(o, out, rc)
             return bk, cmd, st, d, out, wall
         if len(backs) == 1:
@@ -352,21 +362,29 @@ def run_witness(o, repo, work, d):
     w = {"status": "none"}
     wdir = os.path.join(work, "wit")
     os.makedirs(wdir, exist_ok=True)
-    ok, gb, info = build(o, repo, wdir, witness=True)
+    ow = Obl(o)
+    ow.update(o.witness.get("override") or {})
+    ok, gb, info = build(ow, repo, wdir, witness=True)
     if not ok:
         w["why"] = "witness build failed: " + gb[-500:]
         return w
     inputs = None
-    for f in d["failed"][:2]:
-        cmd = cbmc_cmd(o, gb, "minisat", ["--property", f["id"], "--trace", "--json-ui"])
-        rc, out, _ = run(cmd, o.timeout or 600, o.mem_gb or 12, wdir)
+    if o.witness.get("override"):
+        # bounded search for a concrete input: any failing property of the witness harness will do
+        tries = [None]
+    else:
+        tries = [f["id"] for f in d["failed"][:2]]
+    for pid in tries:
+        extra = ["--trace", "--json-ui"] + (["--property", pid] if pid else ["--stop-on-fail"])
+        cmd = cbmc_cmd(ow, gb, "minisat", extra)
+        rc, out, _ = run(cmd, ow.timeout or 600, ow.mem_gb or 12, wdir)
         try:
             js = json.loads(out)
         except Exception:
             continue
         inputs = extract_inputs(js)
         if inputs:
-            w["property"] = f["id"]
+            w["property"] = pid or first_failed(js)
             break
     if not inputs:
         w["why"] = "witness-mode harness gave no counterexample with named inputs"
@@ -395,12 +413,26 @@ def _jsval(v):
     return v.get("name")
 
 
+def first_failed(js):
+    for item in js:
+        if isinstance(item, dict) and "result" in item:
+            for r in item["result"]:
+                if r.get("status") == "FAILURE":
+                    return r.get("property")
+    return None
+
+
 def extract_inputs(js):
     vals = {}
     for item in js:
-        if not isinstance(item, dict) or "result" not in item:
+        if not isinstance(item, dict):
             continue
-        for r in item["result"]:
+        rs = item.get("result")
+        if rs is None and "trace" in item:
+            rs = [item]
+        for r in rs or []:
+            if not isinstance(r, dict):
+                continue
             for st in r.get("trace", []) or []:
                 if st.get("stepType") == "assignment":
                     lhs = st.get("lhs", "")
